@@ -1,8 +1,8 @@
 /-
   ValidaProofs.Lemmas.C14BehaveFilter — `filterAux` level: a single condition with its keyword arguments
   in another order; and, for data that carries paths (`data_has_paths=True`), the relation between
-  filtering with paths and filtering the path-stripped data – valid exactly when the left-most single
-  condition (the one that strips the paths) reads the values.
+  filtering with paths and filtering the path-stripped data (valid for every condition tree since the
+  repair of the unpacking in `Condition._filter`: generated flag `filterUnpacksValuesOnly`).
 -/
 import Valida.Cond
 import ValidaProofs.Lemmas.C02Tree
@@ -54,22 +54,6 @@ theorem filterAux_leaf_perm (cls : CClass) (fn : String) (args : List RArg) {kw 
 
 /-! ### data with paths -/
 
-variable {α : Type}
-
-/-- the left-most single condition of a tree: the one `_filter` hands `data_has_paths=True` to -/
-def leftLeaf : Cond α → Leaf α
-  | .leaf l => l
-  | .bin _ a _ => leftLeaf a
-
-/-- `DATUM_TYPE` of a class is `KEYS` -/
-def readsKeysOf (c : CClass) : Bool :=
-  match c.info with
-  | .ok i => i.readsKeys
-  | .error _ => false
-
-/-- the left-most single condition reads the values (`Value…`), not the keys / indices -/
-def ValuesFirst (c : Cond α) : Prop := readsKeysOf (leftLeaf c).cls = false
-
 /-- `extract_paths()` replaces the values by their first components and leaves the rest alone -/
 theorem extractPaths_ok (d d' : DataV) (ps : List PyVal) (h : extractPaths d = .ok (d', ps)) :
     ∃ vs, d.values.mapM unpack2 = .ok vs ∧ d' = { d with values := vs } := by
@@ -83,13 +67,14 @@ theorem extractPaths_ok (d d' : DataV) (ps : List PyVal) (h : extractPaths d = .
     · cases h
     · cases h; exact ⟨vs, rfl, rfl⟩
 
-/-- the leaf case of `filterAux` with paths, as a plain case distinction -/
-theorem filterAux_leaf_true (l : Leaf RArg) (d : DataV) :
+/-- the leaf case of `filterAux` with paths, as a plain case distinction (with the repaired unpacking:
+    only a value-reading condition unpacks `datum, _ = datum`; keys / indices are read as they are) -/
+theorem filterAux_leaf_true (hflag : filterUnpacksValuesOnly = true) (l : Leaf RArg) (d : DataV) :
     filterAux (.leaf l) d true =
       match l.cls.info with
       | .error e => .error e
       | .ok info =>
-        match (if info.readsKeys then d.keys else d.values).mapM unpack2 with
+        match (if info.readsKeys then (.ok d.keys : Except Exc (List PyVal)) else d.values.mapM unpack2) with
         | .error e => .error e
         | .ok data =>
           match data.mapM (evalItem info.pre l.fn l.args l.kwargs) with
@@ -98,35 +83,46 @@ theorem filterAux_leaf_true (l : Leaf RArg) (d : DataV) :
             match extractPaths d with
             | .error e => .error e
             | .ok (d', ps) => .ok (.leaf l.cls l.fn flags, d', some ps) := by
-  simp only [filterAux]
+  simp only [filterAux, hflag]
   cases l.cls.info with
   | error e => simp [bind, Except.bind]
   | ok info =>
-    simp only [bind, Except.bind, pure, Except.pure, if_true]
-    cases (if info.readsKeys then d.keys else d.values).mapM unpack2 with
-    | error e => simp
-    | ok data =>
-      simp only
-      cases data.mapM (evalItem info.pre l.fn l.args l.kwargs) with
+    simp only [bind, Except.bind, pure, Except.pure, if_true, Bool.true_and]
+    cases hr : info.readsKeys with
+    | true =>
+      simp only [Bool.not_true, Bool.false_eq_true, if_false, if_true]
+      cases d.keys.mapM (evalItem info.pre l.fn l.args l.kwargs) with
       | error e => simp
       | ok flags =>
         simp only
         cases extractPaths d with
         | error e => simp
         | ok r => obtain ⟨d', ps⟩ := r; simp
+    | false =>
+      simp only [Bool.not_false, if_true, Bool.false_eq_true, if_false]
+      cases d.values.mapM unpack2 with
+      | error e => simp
+      | ok data =>
+        simp only
+        cases data.mapM (evalItem info.pre l.fn l.args l.kwargs) with
+        | error e => simp
+        | ok flags =>
+          simp only
+          cases extractPaths d with
+          | error e => simp
+          | ok r => obtain ⟨d', ps⟩ := r; simp
 
-/-- filtering data that carries paths = stripping the paths, then filtering – provided the left-most
-    single condition reads the values -/
-theorem filterAux_true_iff (c : Cond RArg) (hv : ValuesFirst c) :
+/-- filtering data that carries paths = stripping the paths, then filtering: the left-most single
+    condition strips them from the shared `Data`; a value-reading one sees the stripped values either
+    way, a key / index reading one the untouched keys either way -/
+theorem filterAux_true_iff (hflag : filterUnpacksValuesOnly = true) (c : Cond RArg) :
     ∀ (d : DataV) (f : FD) (d' : DataV) (ps : Option (List PyVal)),
       filterAux c d true = .ok (f, d', ps) ↔
         ∃ ps', extractPaths d = .ok (d', ps') ∧ ps = some ps' ∧ filterAux c d' false = .ok (f, d', none) := by
   induction c with
   | leaf l =>
     intro d f d' ps
-    have hv' : readsKeysOf l.cls = false := hv
-    unfold readsKeysOf at hv'
-    rw [filterAux_leaf_true]
+    rw [filterAux_leaf_true hflag]
     cases hi : l.cls.info with
     | error e =>
       simp only
@@ -135,14 +131,12 @@ theorem filterAux_true_iff (c : Cond RArg) (hv : ValuesFirst c) :
       · rintro ⟨ps', _, _, h⟩
         rw [filterAux_leaf_false, hi] at h; cases h
     | ok info =>
-      rw [hi] at hv'
-      simp only at hv'
-      simp only [hv', Bool.false_eq_true, if_false]
-      constructor
-      · intro h
-        split at h
-        · cases h
-        · rename_i vs hvs
+      simp only
+      cases hr : info.readsKeys with
+      | true =>
+        simp only [if_true]
+        constructor
+        · intro h
           split at h
           · cases h
           · rename_i flags hfl
@@ -150,27 +144,55 @@ theorem filterAux_true_iff (c : Cond RArg) (hv : ValuesFirst c) :
             · cases h
             · rename_i d'' ps'' hex
               cases h
-              obtain ⟨vs', hvs', rfl⟩ := extractPaths_ok _ _ _ hex
-              rw [hvs] at hvs'; cases hvs'
+              obtain ⟨vs', _, rfl⟩ := extractPaths_ok _ _ _ hex
               refine ⟨ps'', hex, rfl, ?_⟩
               rw [filterAux_leaf_false, hi]
-              simp only [hv', Bool.false_eq_true, if_false, hfl]
-      · rintro ⟨ps', hex, rfl, h2⟩
-        obtain ⟨vs, hvs, rfl⟩ := extractPaths_ok _ _ _ hex
-        rw [filterAux_leaf_false, hi] at h2
-        simp only [hv', Bool.false_eq_true, if_false] at h2
-        split at h2
-        · cases h2
-        · rename_i flags hfl
-          cases h2
-          rw [hvs]
-          simp only
-          rw [hfl]
-          simp only
-          rw [hex]
+              simp only [hr, if_true, hfl]
+        · rintro ⟨ps', hex, rfl, h2⟩
+          obtain ⟨vs, _, rfl⟩ := extractPaths_ok _ _ _ hex
+          rw [filterAux_leaf_false, hi] at h2
+          simp only [hr, if_true] at h2
+          split at h2
+          · cases h2
+          · rename_i flags hfl
+            cases h2
+            rw [hfl]
+            simp only
+            rw [hex]
+      | false =>
+        simp only [Bool.false_eq_true, if_false]
+        constructor
+        · intro h
+          split at h
+          · cases h
+          · rename_i vs hvs
+            split at h
+            · cases h
+            · rename_i flags hfl
+              split at h
+              · cases h
+              · rename_i d'' ps'' hex
+                cases h
+                obtain ⟨vs', hvs', rfl⟩ := extractPaths_ok _ _ _ hex
+                rw [hvs] at hvs'; cases hvs'
+                refine ⟨ps'', hex, rfl, ?_⟩
+                rw [filterAux_leaf_false, hi]
+                simp only [hr, Bool.false_eq_true, if_false, hfl]
+        · rintro ⟨ps', hex, rfl, h2⟩
+          obtain ⟨vs, hvs, rfl⟩ := extractPaths_ok _ _ _ hex
+          rw [filterAux_leaf_false, hi] at h2
+          simp only [hr, Bool.false_eq_true, if_false] at h2
+          split at h2
+          · cases h2
+          · rename_i flags hfl
+            cases h2
+            rw [hvs]
+            simp only
+            rw [hfl]
+            simp only
+            rw [hex]
   | bin op a b iha _ =>
     intro d f d' ps
-    have hva : ValuesFirst a := hv
     constructor
     · intro h
       rw [filterAux_bin] at h
@@ -180,13 +202,13 @@ theorem filterAux_true_iff (c : Cond RArg) (hv : ValuesFirst c) :
         split at h
         · cases h
         · rename_i fb d2 pb hb
-          obtain ⟨ps', hex, rfl, ha'⟩ := (iha hva d fa d1 pa).1 ha
+          obtain ⟨ps', hex, rfl, ha'⟩ := (iha d fa d1 pa).1 ha
           obtain ⟨rfl, rfl⟩ := filterAux_frame _ _ _ _ _ hb
           cases h
           exact ⟨ps', hex, rfl, filterAux_bin_ok op a b _ fa fb ha' hb⟩
     · rintro ⟨ps', hex, rfl, h⟩
       obtain ⟨fa, fb, ha, hb, rfl⟩ := filterAux_bin_inv op a b d' f d' none h
-      have ha' := (iha hva d fa d' (some ps')).2 ⟨ps', hex, rfl, ha⟩
+      have ha' := (iha d fa d' (some ps')).2 ⟨ps', hex, rfl, ha⟩
       rw [filterAux_bin, ha']
       simp only
       rw [hb]
